@@ -16,6 +16,8 @@ def main():
     t0 = time.time()
     from vf import prelude
 
+    if fname.startswith("c09_"):
+        prelude.install_set_rewrite()
     prelude.install(message_stub=(msg_stub == "1"))
     from crosshair.core import analyze_function, run_checkables
     from crosshair.options import AnalysisOptionSet
